@@ -498,4 +498,7 @@ func main() {
 
 	// T3: structural concurrency facts (facts.go)
 	emitFacts(repo, out)
+
+	// T2 (C07): straight-line float code of distance/dna
+	emitNumericDist(repo, out, en)
 }
